@@ -400,6 +400,17 @@ impl Group for C14 {
                             }
                             // property monitor: view == fresh replay of the surviving chain
                             let view = strip_sb(&wd.digest());
+                            // ... and == the reference view the harness derives from its own knowledge of the chain
+                            // (catches deviations that a replay through the same implementation would repeat)
+                            let reference = expected_view(wd, &chain);
+                            if view != reference {
+                                co.tags.insert("violation:view-differs-from-chain".into());
+                                co.violations.push(Violation {
+                                    kind: "view-differs-from-chain".into(),
+                                    desc: format!("after {} the monitor shows [{}] but the surviving chain implies [{}]", op, view, reference),
+                                    at: i,
+                                });
+                            }
                             let fresh = {
                                 let mut f = World::new_typed(&ct);
                                 let mut ok = true;
